@@ -722,6 +722,7 @@ func c16Run(c *fw.Ctx) {
 		})
 	}
 	c16RunE2E(c)
+	c16RunE2EAuth(c)
 	c.Res.Bound = "2-caller scenarios: all interleavings; 3-caller scenarios: preemption bound 3 (quick) / unbounded (thorough); e2e/*: all interleavings of two whole requests at lock and back-channel granularity, preemption bound 1-2 at statement granularity"
 }
 
